@@ -539,7 +539,12 @@ class NDArray:
     def __rtruediv__(self, o): return self._bin(o, lambda a, b: _np_div(b, a))
     def __floordiv__(self, o): return self._bin(o, lambda a, b: a // b)
     def __pow__(self, o): return self._bin(o, _np_pow)
-    def __neg__(self): return NDArray([-a for a in self._d], self.shape)
+    def __neg__(self):
+        dt = self.dtype if isinstance(self.dtype, _np.dtype) else None
+        if dt is not None and dt.kind == "u":          # unsigned integers: negation wraps modulo 2^bits (and -0 == 0)
+            mod = 1 << (8 * dt.itemsize)
+            return NDArray([so.ite(so.eq(a, 0), 0, so.sub(mod, a)) for a in self._d], self.shape, dt)
+        return NDArray([-a for a in self._d], self.shape, dt if dt is not None and dt.kind in "if" else None)
     def __invert__(self): return NDArray([so.b_not(a) for a in self._d], self.shape)
     def __and__(self, o): return self._bin(o, lambda a, b: so.b_and(a, b))
     def __or__(self, o): return self._bin(o, lambda a, b: so.b_or(a, b))
